@@ -25,14 +25,14 @@ TRUSTED_BASE = [
     "WithUpstreamInfo filter (host resolved) and the dispatcher (policy matched, endpoint picked)",
     "modelled not verified: that a done context aborts a Go HTTP round trip and how fast (runtime + net/http + the dispatcher's "
     "and CancelableTransport's watcher goroutines): the model has an explicit 'cancellation delivered' step; the run measures "
-    "client-side and upstream-side latency against a 2 s bound",
+    "client-side and upstream-side latency against a 10 s bound (a request that is not cut stays open for 20 s at least, so the bound only separates cut from hang on a loaded machine; typical latencies are a few ms, see the cut-latency histogram)",
 ]
 ASSUMPTIONS = [
     "spec changes and deletions reach the gateway through the controller's sync handler, one at a time",
     "a request resolved to a cluster before its deletion and dispatched after it is forwarded with an already-cancelled context "
     "(Pop does not look at contexts): it is cut at once, but its first bytes may still reach the upstream — recorded as a "
     "measurement (stats label before-pick-victim-reached-upstream), not claimed impossible",
-    "latency bound 2 s is a generous measurement bound, not a proved property",
+    "latency bound 10 s is a generous measurement bound, not a proved property",
 ]
 
 HARNESS_CHUNK = 12
@@ -326,9 +326,9 @@ LEVEL_TEXT = ("partial proof: Coq theorems over every reachable state (every his
               "are done, siblings are untouched — for removal at each phase (before pick / connecting / streaming). The model is "
               "compared with the real controller + manager + proxy handler chain on generated removal scenarios on every run and "
               "the executable spec is evaluated on the real observations. Modelled, not verified: that a done context aborts a Go "
-              "HTTP round trip, and how promptly (runtime, net/http, watcher goroutines) — measured against a 2 s bound")
+              "HTTP round trip, and how promptly (runtime, net/http, watcher goroutines) — measured against a 10 s bound (typically a few ms)")
 LEVEL_NOTE = ("trusted: Coq kernel + vm_compute, the hand-written model (tied by differential run only), Go harness, overlay exports, "
               "ticker seam; modelled not verified: delivery and promptness of cancellation (Go runtime + net/http), goroutine "
-              "timing; 'promptly' is a measurement (client- and upstream-side latency <= 2 s, typically a few ms); no axioms")
+              "timing; 'promptly' is a measurement (client- and upstream-side latency <= 10 s, typically a few ms); no axioms")
 TECHNIQUE = ("Coq proof (context tree as cancel flags, invariants and frame lemmas over op histories) + differential "
              "model/implementation correspondence on removal scenarios with requests held in each life phase + latency measurement")
